@@ -167,6 +167,47 @@ theorem post_withheld_whole (h id tg : Nat) : ∀ (fs : List TFrame) (s : St),
       rw [step_route]; exact (continuation_withheld s.table h id tg f ht hc).1
     · exact r2 p hp hph
 
+theorem step_work_filter (s : St) (f : TFrame) (id h : Nat) :
+    ((step s f).1.work id).filter (·.handle == h) =
+      (s.work id).filter (·.handle == h) ++
+        (if (step s f).2 = .withheld id ∧ f.handle = h then [f] else []) := by
+  cases hr : (step s f).2 with
+  | direct => simp [direct_keeps_work s f hr]
+  | withheld j =>
+    obtain ⟨w1, w2⟩ := withheld_in_order s f j hr
+    by_cases hj : j = id
+    · subst hj
+      by_cases hh : f.handle = h <;> simp [w1, hh]
+    · have : id ≠ j := fun e => hj e.symm
+      simp [w2 id this, hj]
+
+/-- **post_work_in_order (C10, C18).** Under the hypotheses of `post_withheld_whole`: what the transaction
+    holds for link `h` afterwards is what it held before followed by the frames of the post in the order they
+    came, nothing of another link among them — so that the commit, which replays a transaction's work in
+    order, hands the link the very frame sequence the peer wrote, to which `reasm_once` applies. -/
+theorem post_work_in_order (h id tg : Nat) : ∀ (fs : List TFrame) (s : St),
+    s.table h = some (id, some tg) →
+    (∀ f ∈ fs, f.handle = h → Continues h id tg f ∧ f.more = true ∧ f.aborted = false) →
+    ((run s fs).1.work id).filter (·.handle == h) =
+      (s.work id).filter (·.handle == h) ++ fs.filter (·.handle == h)
+  | [], _, _, _ => by simp [run]
+  | f :: fs, s, ht, hall => by
+    have hrun : (run s (f :: fs)).1 = (run (step s f).1 fs).1 := by simp [run]
+    have ht' : (step s f).1.table h = some (id, some tg) := by
+      rw [step_table]
+      by_cases hh : f.handle = h
+      · obtain ⟨hc, hm, ha⟩ := hall f (by simp) hh
+        rw [(continuation_withheld s.table h id tg f ht hc).2]; simp [hm, ha]
+      · rw [other_links_untouched s.table f h hh]; exact ht
+    rw [hrun, post_work_in_order h id tg fs (step s f).1 ht' (fun g hg => hall g (by simp [hg])),
+      step_work_filter]
+    by_cases hh : f.handle = h
+    · obtain ⟨hc, _, _⟩ := hall f (by simp) hh
+      have hw : (step s f).2 = .withheld id := by
+        rw [step_route]; exact (continuation_withheld s.table h id tg f ht hc).1
+      simp [hw, hh]
+    · simp [hh]
+
 /-! ### non-vacuity: a three-frame post (tag repeated on the second frame, state on the first only) whose last
     frame aborts with `more`, then a plain two-frame delivery -/
 example : (run St.init [⟨0, some 7, some 1, true, false, 1⟩, ⟨0, none, some 1, true, false, 2⟩,
